@@ -129,6 +129,14 @@ def handleCore (st : St) (l : Line) : Option (St × List String) := do
         if parts.all Option.isSome then
           pure (st, ["val " ++ "|".intercalate (parts.map (fun p => showElems (p.getD [])))])
         else pure (st, ["err"])
+      | "pdx" =>
+        -- partial decoder, plus the implementation's own "full decode then slice" comparison
+        let c ← l.nl "c"
+        let rs ← ((← l.get "rs").splitOn "|").mapM parseSubset
+        let parts := rs.map (fun r => cfg.retrieveChunkSubset st.st c r)
+        if parts.all Option.isSome then
+          pure (st, ["val " ++ "|".intercalate (parts.map (fun p => showElems (p.getD []))) ++ " same=true"])
+        else pure (st, ["err"])
       | "typed_chunk" => pure (st, [optVal (cfg.retrieveChunk st.st (← l.nl "c")), "untyped"])
       | "typed_subset" => pure (st, [optVal (cfg.retrieveArraySubset st.st (← parseSubset (← l.get "r"))), "untyped"])
       | "typed_chunk_subset" => pure (st, [optVal (cfg.retrieveChunkSubset st.st (← l.nl "c") (← parseSubset (← l.get "r"))), "untyped"])
